@@ -28,8 +28,15 @@ func (gs GenesisState) Validate() error {
 		if seenErc20[b.ERC20Address] {
 			return fmt.Errorf("token ERC20 contract duplicated on genesis '%s'", b.ERC20Address)
 		}
-		if seenDenom[b.Denoms[0]] {
-			return fmt.Errorf("coin denomination duplicated on genesis: '%s'", b.Denoms[0])
+		if len(b.Denoms) == 0 {
+			return fmt.Errorf("token pair without coin denomination on genesis: '%s'", b.ERC20Address)
+		}
+		// every denomination of every pair gets an index entry, none may repeat
+		for _, denom := range b.Denoms {
+			if seenDenom[denom] {
+				return fmt.Errorf("coin denomination duplicated on genesis: '%s'", denom)
+			}
+			seenDenom[denom] = true
 		}
 
 		if err := b.Validate(); err != nil {
@@ -37,7 +44,6 @@ func (gs GenesisState) Validate() error {
 		}
 
 		seenErc20[b.ERC20Address] = true
-		seenDenom[b.Denoms[0]] = true
 	}
 
 	return gs.Params.Validate()
